@@ -290,9 +290,11 @@ fn frontmatter(rng: &mut Rng, odd_keys: bool) -> String {
     s
 }
 
-const NAMES: &[&str] = &["flour", "sea salt", "olive oil", "é", "./dough", "egg"];
-const UNITS: &[&str] = &["g", "kg", "ml", "l", "cup", "cups", "tsp", "tbsp", "oz", "lb", "°C", "min", "h", "pinch", "F", "C", "in"];
-const VALUES: &[&str] = &["1", "2", "200", "0.5", "1.5", "1/2", "1 1/2", "3/4", "2-3", "1/2-3/4", "0.1", "10.25", "7/3", "a few", "0", "1000000", "1 1/3", "4-2", "3-3", "1 1/2-1/2"];
+// (texts that need escaping in JSON — a double quote, the inch symbol `"` of the bundled units, a tab, U+2028 — occur in every
+// string position: names, units, text values, notes, section names, step text)
+const NAMES: &[&str] = &["flour", "sea salt", "olive oil", "é", "./dough", "egg", "\"odd\" salt", "tab\tsalt"];
+const UNITS: &[&str] = &["g", "kg", "ml", "l", "cup", "cups", "tsp", "tbsp", "oz", "lb", "°C", "min", "h", "pinch", "F", "C", "in", "\"", "\" strips", "a\u{2028}b"];
+const VALUES: &[&str] = &["1", "2", "200", "0.5", "1.5", "1/2", "1 1/2", "3/4", "2-3", "1/2-3/4", "0.1", "10.25", "7/3", "a few", "a \"few\"", "0", "1000000", "1 1/3", "4-2", "3-3", "1 1/2-1/2"];
 /// what has been written so far (references must have a target)
 #[derive(Default)]
 struct GenState { defined: Vec<&'static str>, cookware: Vec<&'static str>, steps_in_section: usize, finished_sections: usize }
@@ -318,12 +320,12 @@ fn component(rng: &mut Rng, st: &mut GenState) -> String {
             let m = if is_ref { "&" } else { *rng.pick(&["", "", "", "?", "-", "@", "+", "-?"]) };
             let n = if m == "@" { plain } else { n };
             let al = if rng.chance(1, 6) { "|alias" } else { "" };
-            let note = if !is_ref && rng.chance(1, 5) { "(note é)" } else { "" };
+            let note = if !is_ref && rng.chance(1, 5) { *rng.pick(&["(note é)", "(6\" tin)", "(a\tb)"]) } else { "" };
             if !is_ref && !st.defined.contains(&plain) { st.defined.push(plain); }
             format!("@{m}{n}{al}{{{}}}{note}", q(rng))
         }
         5 => {
-            let n: &'static str = *rng.pick(&["pan", "big pot", "bowl"]);
+            let n: &'static str = *rng.pick(&["pan", "big pot", "bowl", "9\" tin"]);
             let is_ref = st.cookware.contains(&n) && rng.chance(1, 3);
             if !is_ref && !st.cookware.contains(&n) { st.cookware.push(n); }
             format!("#{}{n}{{{}}}", if is_ref { "&" } else { *rng.pick(&["", "", "?", "-"]) }, rng.pick(&["", "2", "1-2", "big"]))
@@ -340,14 +342,14 @@ fn gen_recipe(rng: &mut Rng, odd_keys: bool) -> String {
     for _ in 0..nb {
         match rng.below(8) {
             0 => {
-                s.push_str(&format!("= {}\n\n", rng.pick(&["Dough", "Filling", ""])));
+                s.push_str(&format!("= {}\n\n", rng.pick(&["Dough", "Filling", "", "The \"Dough\""])));
                 if section_has_content { st.finished_sections += 1; }
                 st.steps_in_section = 0; section_has_content = false;
             }
             1 => { s.push_str("> a note with 2 cups of text\n\n"); section_has_content = true; }
             _ => {
                 let n = 1 + rng.below(4);
-                s.push_str(rng.pick_str(&["Mix ", "Add ", "", "Bake 200 g at 180 °C "]));
+                s.push_str(rng.pick_str(&["Mix ", "Add ", "", "Bake 200 g at 180 °C ", "Line the 9\" tin, \"gently\" "]));
                 for _ in 0..n { s.push_str(&component(rng, &mut st)); s.push_str(rng.pick_str(&[" and ", " ", ", then ", "\n"])); }
                 s.push_str("\n\n");
                 st.steps_in_section += 1; section_has_content = true;
